@@ -146,6 +146,17 @@ Section Step.
     intros Et. destruct (g_recl _ HG) as [R|[_ [E _]]]; auto. exfalso. apply st_nonempty. now rewrite Et.
   Qed.
 
+  Lemma gmb_newds d : cell (mem (base x)) c_ds <> D_NONE -> d <> D_NONE ->
+    match mb (gh x) with
+    | MBNone => d = D_NONE /\ cell (mem (base x)) c_ji = 0
+    | MBFull s => d <> D_NONE /\ cell (mem (base x)) c_ji = fname s
+    | _ => d <> D_NONE /\ cell (mem (base x)) c_ji = 0
+    end.
+  Proof.
+    intros A B. pose proof (g_mb _ HG) as GM. unfold ds_of, ji_of in GM.
+    destruct (mb (gh x)); destruct GM as [G1 G2]; split; auto; contradiction.
+  Qed.
+
   Lemma case_y1 p k : stk (base x) t = [YRead; FC (JYielded p k)] -> idle x t -> step_goal x t.
   Proof.
     intros Hs I. pose proof I as [[R1 [R2 R3]] TP]. compute_step Hs. split; [|split].
@@ -476,8 +487,115 @@ Section Step.
       + rewrite upd_same. replace (fname tgt) with (fname t) by (now rewrite Et). apply sh_sw; auto. left. auto.
       + constructor; cbn; intros; auto using upd_other;
           try (left; reflexivity); try (left; split; [reflexivity | intros; reflexivity]).
-        all: idtac.
-        Show.
-  Abort.
+      + constructor; try gf HG; try (apply recl_keep; reflexivity); cbn; auto; try discriminate;
+          try (intros; discriminate).
+        * split; [discriminate|]. rewrite E in GM. unfold ji_of in GM. tauto.
+        * intros [Q|[Q|[Q|[s [u Q]]]]]; discriminate.
+        * rewrite W. discriminate.
+        * rewrite Gv. discriminate.
+        * rewrite GD. discriminate.
+        * rewrite NA. split; [lia | intros; lia].
+        * rewrite NB. split; [lia | intros; lia].
+    - (* WAIT_TO_JOIN: fetch the joiner *)
+      assert (Rl : released (gh x) = true) by (apply (g_rel _ HG); auto).
+      compute_step Hs. unfold ds_of in *. rewrite D. cbn -[Z.add Z.mul]. rewrite ?orb_false_r, ?andb_false_r, ?orb_false_r.
+      split; [|split].
+      + rewrite upd_same. apply sh_c0; auto. left. auto.
+      + constructor; cbn; intros; auto using upd_other;
+          try (left; reflexivity); try (left; split; [reflexivity | intros; reflexivity]).
+      + constructor; try gf HG; try (apply recl_keep; reflexivity); cbn; auto; try discriminate;
+          try (intros; discriminate).
+        * apply gmb_newds; [rewrite D|]; discriminate.
+        * apply asleep_keep.
+        * apply full_keep.
+    - (* DETACHED meanwhile: nothing to do *)
+      assert (Rl : released (gh x) = true) by (apply (g_rel _ HG); auto).
+      compute_step Hs. unfold ds_of in *. rewrite D. cbn -[Z.add Z.mul]. rewrite ?orb_false_r, ?andb_false_r, ?orb_false_r.
+      split; [|split].
+      + rewrite upd_same. apply sh_tdonew; auto. split; auto.
+      + constructor; cbn; intros; auto using upd_other;
+          try (left; reflexivity); try (left; split; [reflexivity | intros; reflexivity]).
+      + constructor; try gf HG; try (apply recl_keep; reflexivity); cbn; auto; try discriminate;
+          try (intros; discriminate).
+        * apply gmb_newds; [rewrite D|]; discriminate.
+        * apply asleep_keep.
+        * apply full_keep.
+  Qed.
+
+  Lemma case_tread j : stk (base x) t = [CLoadC (c_res tgt) 5; FC (TReadRes j)] -> t = tgt -> run x t ->
+    mb (gh x) = MBTaken j tgt -> woken (gh x) = false -> gave (gh x) = false -> j <> tgt -> tfin x ->
+    step_goal x t.
+  Proof.
+    intros Hs Et R E W Gv Nj TF. compute_step Hs. split; [|split].
+    - rewrite upd_same. apply sh_tgive; auto. cbn.
+      destruct TF as [Fn _]. destruct (gfin (gh x)) as [R0|] eqn:F; [|contradiction].
+      f_equal. symmetry. exact (g_fin _ HG _ F).
+    - rely_same.
+    - keepG.
+  Qed.
+
+  Lemma case_tgive j v : stk (base x) t = [CStoreC (c_res j) v 5; FC (TGave j)] -> t = tgt -> run x t ->
+    mb (gh x) = MBTaken j tgt -> woken (gh x) = false -> gave (gh x) = false -> j <> tgt -> tfin x ->
+    gfin (gh x) = Some v -> step_goal x t.
+  Proof.
+    intros Hs Et R E W Gv Nj TF Fv. compute_step Hs. split; [|split].
+    - rewrite upd_same. apply sh_tready; auto.
+    - constructor; cbn; intros; auto using upd_other;
+        try (left; reflexivity); try (left; split; [reflexivity | intros; reflexivity]).
+      right. repeat split; auto. exists j, v. repeat split; auto.
+      + unfold gm. cbn. apply upd_same.
+      + intros u N. unfold gm. cbn. apply upd_other. unfold c_res. lia.
+    - constructor; try gf HG; try (apply recl_keep; reflexivity); cbn; auto.
+      + intros R0 Q. unfold gm. cbn. rewrite upd_other by (unfold c_res, tgt in *; lia). now apply (g_fin _ HG).
+      + apply asleep_keep.
+      + apply full_keep.
+      + intros _. eauto.
+  Qed.
+
+  Lemma sleeper_blocked j u : mb (gh x) = MBTaken j u -> woken (gh x) = false -> blocked (gm x) j = true.
+  Proof.
+    intros E W. destruct (g_asleep _ HG _ _ E W) as [X HX]. pose proof (HS j) as H. rewrite HX in H.
+    inversion H; subst. match goal with B : blocked _ _ = negb _ |- _ => rewrite B, W end. reflexivity.
+  Qed.
+
+  Lemma sched_rwk j : mb (gh x) = MBTaken j t -> woken (gh x) = false -> (t = tgt -> gave (gh x) = true) ->
+    true = woken (gh x) /\
+    (forall u : nat, u <> t -> upd (blocked (mem (base x))) j false u = blocked (gm x) u) \/
+    woken (gh x) = false /\ true = true /\ mb (gh x) = mb (gh x) /\ (t = tgt -> gave (gh x) = true) /\
+    (exists s : nat, mb (gh x) = MBTaken s t /\ upd (blocked (mem (base x))) j false s = false /\
+       (forall u : nat, u <> t -> u <> s -> upd (blocked (mem (base x))) j false u = blocked (gm x) u)).
+  Proof.
+    intros E W Gv. right. repeat split; auto. exists j. repeat split; auto.
+    - apply upd_same.
+    - intros u _ N. now apply upd_other.
+  Qed.
+
+  Lemma sched_rfst j u : mb (gh x) = MBTaken j t -> woken (gh x) = false ->
+    upd (fstate (mem (base x))) j ST_READY u = fstate (gm x) u \/
+    (mb (gh x) = MBTaken u t /\ woken (gh x) = false).
+  Proof.
+    intros E W. destruct (Nat.eq_dec u j) as [->|N]; [right; auto | left; now apply upd_other].
+  Qed.
+
+  Lemma case_tready j : stk (base x) t = [FStWrite j ST_READY; FC (TReady j)] -> t = tgt -> run x t ->
+    mb (gh x) = MBTaken j tgt -> woken (gh x) = false -> gave (gh x) = true -> j <> tgt -> tfin x ->
+    step_goal x t.
+  Proof.
+    intros Hs Et R E W Gv Nj TF. pose proof (sleeper_blocked _ _ E W) as Bj. unfold gm in Bj.
+    destruct R as [R1 [R2 R3]]. unfold gm in *.
+    compute_step Hs. unfold wake. cbn -[Z.add Z.mul]. rewrite Bj. cbn -[Z.add Z.mul].
+    split; [|split].
+    - rewrite upd_same. apply sh_tdonew; auto.
+      unfold run, gm. cbn. rewrite !upd_other by congruence. auto.
+    - constructor; cbn; intros; auto using upd_other;
+        try (left; reflexivity); try (left; split; [reflexivity | intros; reflexivity]).
+      + apply sched_rwk; auto. congruence.
+      + apply sched_rfst; auto. congruence.
+    - constructor; try gf HG; try (apply recl_keep; reflexivity); cbn; auto; try discriminate;
+        try (intros; discriminate).
+      + apply full_keep.
+      + intros _. eauto.
+      + left. now apply recl_zero_tgt.
+  Qed.
 (*CASES*)
 End Step.
